@@ -1,4 +1,5 @@
 // @mount src/queue.rs
+// @needs o_env
 //
 // Environment layer for every queue-level and driver-level harness (child module of crate::queue,
 // so it sees the private fields of VirtQueue / Descriptor / AvailRing / UsedRing).
@@ -11,6 +12,7 @@
 #![allow(unused, unsafe_op_in_unsafe_fn, clippy::all, static_mut_refs, missing_docs)]
 
 pub use super::*;
+pub(crate) use super::owning::__verif_o_env::mk_owning_raw;
 pub use crate::hal::{BufferDirection, Hal, PhysAddr};
 pub use crate::transport::{DeviceStatus, DeviceType, InterruptStatus, Transport};
 pub use core::ptr::NonNull;
